@@ -171,6 +171,10 @@ func renderMpcl(mc *mpCase) string {
 			x, y := name(s.X), name(s.Y)
 			n := def(types[s.X-1])
 			fmt.Fprintf(&body, "\t%s := %s\n\tfor i := 0; i < %d; i++ {\n\t\t%s = %s %s %s\n\t}\n", n, x, s.C, n, n, s.Op, y)
+		case "loopt":
+			x, y := name(s.X), name(s.Y)
+			n := def(types[s.X-1])
+			fmt.Fprintf(&body, "\t%s := %s\n\tfor i, j := 0, 1; i < %d; i, j = j, i+j {\n\t\t%s = %s %s %s\n\t}\n", n, x, s.C, n, n, s.Op, y)
 		case "loopret":
 			x, y := name(s.X), name(s.Y)
 			n := def(types[s.X-1])
